@@ -41,8 +41,8 @@ CLAIMED = {
  "C05": ("Coq proof: framing/outcome of command and query for all scripts, no-raise of the primitives, attribution by induction over request lists; fault-position enumeration",
          "Theorems C05_command_frame/outcome, C05_query_frame/outcome, C05_primitives_no_raise, C05_attribution: one write of the trimmed text, at most 26 reads, success iff the reply begins with the "
          "request's name and has no 'Err:', payload = reply minus name and one comma, failures recorded, no exception from the primitives for any script, and against a conforming device every "
-         "request of any sequence consumes exactly its own reply. Every method is run with a fault / error line / wrong name / silence at every I/O position of its nominal exchange.",
-         NOTE_COMMON + "Methods that parse a payload are shown not to raise only for well-formed payloads (sampled); the reboot-class exemption is stated.", "DESIGN.md section 5, C05"),
+         "request of any sequence consumes exactly its own reply. Theorem C05_request_methods_no_raise: each of the 30 public request methods returns normally from every state on every script whose lines are failing replies for the names it uses (blank / containing 'Err:' / not beginning with the name), with faults and silence anywhere (argument errors excluded: blank text, value outside 32 bits). Every method is run with a fault / error line / wrong name / silence at every I/O position of its nominal exchange.",
+         NOTE_COMMON + "A raise is possible only from the payload of a name-correct, error-free reply; that such payloads parse is sampled against the conforming-device model; the reboot-class exemption is stated.", "DESIGN.md section 5, C05"),
  "C06": ("Coq proof: emitted text = documented table for all integer arguments, pause chunking by induction, suppression iff; correspondence per helper",
          "Theorems C06_legacy, C06_ebb3, C06_layers_agree, C06_pause, C06_lowlevel_suppressed_iff on the models of the text construction of both layers; the bytes written by every helper "
          "against an all-acknowledging port are compared with the model and with Spec/EbbDoc.v (zero-valued optional arguments, chunk boundaries, all zero/non-zero patterns of LM arguments).",
